@@ -73,7 +73,8 @@ _STRAIGHT = {}
 
 
 def straight_path(g):
-    """the single returning path of a loop-free local helper (diverging assert paths ignored), else None"""
+    """the single returning path of a loop-free local helper (diverging assert paths ignored); for a fallible helper written with
+    `?` the single path that returns Ok (its error exits are prefixes of that path); else None"""
     if g.path in _STRAIGHT:
         return _STRAIGHT[g.path]
     _STRAIGHT[g.path] = None
@@ -82,10 +83,15 @@ def straight_path(g):
         rets = [q for q in explore(g, max_visits=1, limit=64) if q.end == 'return']
         if len(rets) == 1:
             _STRAIGHT[g.path] = rets[0]
+        elif 1 < len(rets) <= 16 and g.local_ty(0).startswith('std::result::Result<'):
+            kinds = [(ret_kind(q.ret()), q) for q in rets]
+            oks = [q for k, q in kinds if k == 'ok']
+            if len(oks) == 1 and all(k in ('ok', 'residual', 'err') for k, _ in kinds):
+                _STRAIGHT[g.path] = oks[0]
     return _STRAIGHT[g.path]
 
 
-def path_calls(p, args=True, expand=False, _depth=0):
+def path_calls(p, args=True, expand=True, _depth=0):
     """[(k, bid, callee, (arg exprs), term)] along a path; the last block's call is included only if the path continues after it.
     expand=True additionally lists, right after a call to a loop-free single-path LOCAL helper, the calls that helper makes, with the
     helper's parameters replaced by the caller's argument expressions and access paths (term['_locs']); extracting a few statements
@@ -106,6 +112,17 @@ def path_calls(p, args=True, expand=False, _depth=0):
                 gp = straight_path(g)
                 if gp is None:
                     continue
+                if g.local_ty(0).startswith('std::result::Result<'):
+                    # the caller's path must continue on the success edge of this call (or not inspect it at all)
+                    import stdalg
+                    from rules.streams import norm as _norm
+                    me = _norm(ce)
+                    failed = False
+                    for d in p.cdecisions():
+                        if d[0] >= k and d[2][0] == 'discr' and _norm(d[2][1]) == me and d[3] == 1:
+                            failed = True
+                    if failed:
+                        continue
                 from sym import subst, simplify_proj
                 m = {i + 1: a for i, a in enumerate(ce[2])}
                 clocs = [arg_loc(p.fn, t, i) for i in range(len(t['args']))]
